@@ -15,9 +15,9 @@ Definition chunk_payload_crc (c : chunk) : N :=
 Definition stored_header_crc (l : list N) : N := le_val (subN l 16 4).
 Definition stored_payload_crc (l : list N) : N := le_val (subN l (lenN l - 4) 4).
 
-(* device, chip, packet sequence, channel sequence, chunk id, flags, end-of-message,
+(* device, chip, packet sequence, channel sequence, chunk id, end-of-message (the only accessor of flags),
    header_crc32c(), payload_crc32c(), stored header CRC word, stored payload CRC word *)
 Definition chunk_obs (l : list N) (c : chunk) : res (list N) :=
   do h <- chunk_header_crc c;
-  Ok [c_dev c; c_chan c; c_pseq c; c_cseq c; c_id c; c_flags c; N.b2n (c_eom c);
+  Ok [c_dev c; c_chan c; c_pseq c; c_cseq c; c_id c; N.b2n (c_eom c);
       h; chunk_payload_crc c; stored_header_crc l; stored_payload_crc l].
